@@ -509,8 +509,36 @@ def run(ctx):
                 ctx.ob("R07.6", "%s|as_integer-under-type-test" % fname.split("::")[-1], ok, fn.loc(c),
                        "as_integer() of %s is %sbehind a test of its result type" % (r["n"], "" if ok else "NOT "))
     ctx.floor("R07.6", "as_integer() consumers in the builder", n_c, 3)
-    # enumerator increment: exactly once per element
+    # an enumerator whose initialiser cannot be evaluated must not be stored (it would carry the previous value + 1)
     fe = db.fn("InterrogateBuilder::define_enum_type")
+    pushes = [c for c in fe.walk() if c.get("k") == "call" and callee_short(c) == "push_back" and (field_of(c.get("this")) or "").endswith("_enum_values")]
+
+    def is_error(atom, truth):
+        cc = G.cmp_atom(atom)
+        if not cc:
+            return False
+        op, a, b = cc
+        o = op if truth else G.NEG[op]
+        for x, y in ((a, b), (b, a)):
+            if (field_of(x) or "").endswith("Result::_type") and y is not None and y.get("k") == "ref":
+                nm = y["n"].split("::")[-1]
+                if (nm == "RT_error" and o == "==") or (nm == "RT_integer" and o == "!="):
+                    return True
+        return False
+    err_edges = G.edges_where(fe, is_error)
+    heads = C12_loop_heads(fe.cfg)
+    ok = bool(err_edges) and bool(pushes)
+    for (b, idx) in err_edges:
+        s_ = fe.cfg.blocks[b].succs[idx]
+        if s_ is None:
+            continue
+        reach = fe.cfg.reachable(s_, cut_blocks=heads)
+        for pcall in pushes:
+            if fe.cfg.locate(pcall)[0] in reach:
+                ok = False
+    ctx.ob("R07.6", "define_enum_type|unevaluable-enumerator-not-stored", ok, fe.loc(pushes[0]) if pushes else fe.loc(),
+           "after `result._type == RT_error` the element is %s" % ("not stored" if ok else "still pushed into _enum_values with the running counter as its value (a wrong number)"))
+    # enumerator increment: exactly once per element
     incs = [n for n in fe.walk() if n.get("k") == "un" and n.get("op") in ("post++", "++") and (local_ref(n["e"]) or {}).get("dk") == "local"]
     nv = [n for n in incs if "next" in (local_ref(n["e"]) or {}).get("n", "") or True]
     loops = [n for n in fe.walk() if n.get("k") == "for"]
@@ -524,6 +552,15 @@ def run(ctx):
             a, b = fe.cfg.locate(stores[0]), fe.cfg.locate(body_incs[0])
             ok = v is not None and sv is not None and v["d"] == sv["d"] and a[0] == b[0] and a[1] < b[1]
     ctx.ob("R07.6", "define_enum_type|implicit-increment", ok, fe.loc(), "the stored value is the running counter, incremented exactly once after each element")
+
+
+def C12_loop_heads(cfg):
+    heads = set()
+    dom = cfg.dominators()
+    for b, idx, s in cfg.edges():
+        if b in dom and s in dom.get(b, ()):
+            heads.add(s)
+    return heads
 
 
 def _binform(e, operand):
